@@ -35,6 +35,7 @@
 #include "safe_mem_lib.h"
 #else
 #include "safeclib_private.h"
+#include <limits.h>
 #endif
 
 /**
@@ -195,7 +196,14 @@ EXPORT errno_t _memcmp32_s_chk(const uint32_t *dest, rsize_t dlen,
     *diff = 0;
     while (dlen != 0 && slen != 0) {
         if (*dest != *src) {
-            *diff = *dest - *src; /* in units of int32 */
+            /* in units of int32; elements 2^31 or more apart do not fit an
+               int: keep the sign */
+            if (*dest > *src)
+                *diff = (*dest - *src > (uint32_t)INT_MAX) ? INT_MAX
+                                                           : (int)(*dest - *src);
+            else
+                *diff = (*src - *dest > (uint32_t)INT_MAX) ? INT_MIN + 1
+                                                           : -(int)(*src - *dest);
             break;
         }
 
